@@ -323,4 +323,6 @@ TRIGGERS = {
     'sibling_shared_or_cyclic_optin_direct_children': lambda case, outd, v: bool(_SIB & set(outd['labels'])),
     'optin_with_none_remote_state': lambda case, outd, v: 'feat:none_state' in outd['labels'],
     'protocol_0_or_1_and_falsy_state': lambda case, outd, v: case.get('protocol', 4) < 2 and 'feat:falsy_state' in outd['labels'],
+    # with remote=False the menu classes of kind 'none' and 'falsy' return their plain __dict__, which is false when the instance has no attributes
+    'protocol_0_or_1_and_false_local_state': lambda case, outd, v: case.get('protocol', 4) < 2 and bool({'feat:falsy_state', 'feat:none_state'} & set(outd['labels'])),
 }
